@@ -251,6 +251,8 @@ func init() {
 	ctl("stop drains the event queue", "V-RECV", "received event is dispatched", "cache", "eventProcessor", "Run", kStmt, "return", 0, to("for {\nselect {\ncase <-e.events:\ndefault:\nreturn\n}\n}"))
 	ctl("Populate2 deletes a row directly", "V-WHO", "Populate2|RowCache.Delete", "cache", "TableCache", "Populate2", kStmt, "update := updates.ModelUpdates{}", 0, before("if row.Insert != nil && tCache.cache[uuid] != nil {\n_ = tCache.Delete(uuid)\n}"))
 	ctl("index check skips rows", "X8", "IndexExists on every transaction row", "database/transaction", "Transaction", "checkIndexes", kStmt, "err := tc.IndexExists(row)", 0, before("if row == nil {\ncontinue\n}"))
+	ctl("Delete drops and re-takes the lock after looking the row up", "L-ATOM", "(*cache.RowCache).Delete|cache.RowCache.mutex", "cache", "RowCache", "Delete", kStmt, "oldRow := r.cache[uuid]", 0, to("oldRow := r.cache[uuid]\nr.mutex.Unlock()\nr.mutex.Lock()"))
+	ctl("references into root tables are not checked", "T-DANGLE", "processStrongReferences|rowExists", "updates", "referenceTracker", "processStrongReferences", kStmt, "exists, err := rt.rowExists(spec.ToTable, to)", 0, before("if isRoot(&rt.dbModel, spec.ToTable) {\ncontinue\n}"))
 	ctl("lock taken before waiting for the handlers", "L-WAIT", "handleDisconnectNotification|WaitGroup.Wait", "client", "ovsdbClient", "handleDisconnectNotification", kStmt, "o.handlerShutdown.Wait()", 0, to("o.shutdownMutex.Lock()\no.handlerShutdown.Wait()\no.shutdownMutex.Unlock()"))
 	ctl("transact accepts an empty operation list", "G-ARGS", "at least one operation", "server", "OvsdbServer", "Transact", kExpr, "len(args) < 2", 0, to("len(args) < 1"))
 	ctl("delete-by-keys special case for every column", "P-NIL-TYPEOBJ", "addMutateOperation|deref", "updates", "ModelUpdates", "addMutateOperation", kExpr, `mutation.Mutator == "delete" && column.Type == ovsdb.TypeMap && reflect.TypeOf(mutation.Value) != reflect.TypeOf(ovsdb.OvsMap{})`, 0, to(`mutation.Mutator == "delete" && reflect.TypeOf(mutation.Value) != reflect.TypeOf(ovsdb.OvsMap{})`))
